@@ -47,4 +47,6 @@ Inductive tok :=
 | TPlay (args : list (option marg)) (lineno : Z)
 | TDefStr (name : list ch) (v : option marg)
 (* text meta events: value_i = the meta type of the table row, the FIRST argument ({text} / "text" / an integer literal / nothing) *)
-| TMetaText (ty : Z) (a : option marg).
+| TMetaText (ty : Z) (a : option marg)
+(* Port(n): the FIRST argument *)
+| TPort (v : Z).
